@@ -683,6 +683,38 @@ func deliverDuringWatch(c *ctx, name string) {
 
 // deadlineCases: wall-clock side of C05 (not expressible in the model): a lookup of a resource that never arrives
 // returns an error no later than the earlier of the fetch timeout and the caller's deadline / cancellation, plus slack.
+// kindCases: lookups with kinds that are not resource kinds (the zero kind, negative numbers, numbers above the name
+// table) on a real manager: rejected at once, and nothing is left behind (no subscription, no request, no waiter).
+func kindCases(c *ctx) {
+	for _, k := range []int{-7, -1, 0, 1, 3, 5, 6, 10, 1 << 20} {
+		w, err := newWorld(worldOpts{ndsNotRequired: true, fetchTimeout: 300 * time.Millisecond})
+		if err != nil {
+			fmt.Println("kind: world:", err)
+			return
+		}
+		before := fmt.Sprint(w.m.VerifInterest())
+		mark := w.mark()
+		t0 := time.Now()
+		var res interface{}
+		var gerr error
+		p, msg := recoverTo(func() { res, gerr = w.m.Get(context.Background(), xdsresource.ResourceType(k), "some-name") })
+		el := time.Since(t0)
+		w.settle()
+		out := canonGet(xdsresource.ResourceType(k), res, gerr)
+		if p {
+			out = "panic:" + msg
+		}
+		pend := 0
+		for _, ns := range w.m.VerifPending() {
+			pend += len(ns)
+		}
+		c.count("kind-cases", 1)
+		c.emit(obj{"op": "kind", "kind": k, "obs": obj{"result": out, "elapsedMs": el.Milliseconds(), "interestChanged": fmt.Sprint(w.m.VerifInterest()) != before,
+			"requests": len(w.since(mark)), "waiters": pend}})
+		w.close()
+	}
+}
+
 func deadlineCases(c *ctx) {
 	for _, tc := range []struct {
 		fetchMs, callerMs int
@@ -816,6 +848,7 @@ func init() {
 	props["C05"] = func(c *ctx) {
 		runAll(c)
 		deadlineCases(c)
+		kindCases(c)
 		// lookups (cached and uncached names) placed around and between the lock sections of a response handler: each
 		// returns in time whatever the receiver is doing
 		runSysLookups(c)
